@@ -8,6 +8,7 @@ import mpmath
 import importlib
 c10 = importlib.import_module("props.c10")
 c04 = importlib.import_module("props.c04")
+c07 = importlib.import_module("props.c07")
 
 
 def closed_form_cases(rng, tier):
@@ -49,7 +50,7 @@ def run(rep, rng, tier, replay=None):
                           nontrivial=lambda c: c["L"] >= 2 or any(ed["mass"] is not None for ed in c["edge_data"]) or c["D"] != 3,
                           extra_cases=extra, emax=7 if tier == "quick" else 8)
     broke = any(v["kind"] == "correspondence" for v in rep.violations)
-    n_exact = n_energy = 0
+    n_exact = n_energy = n_trop = 0
     mpmath.mp.dps = 30
     for c, fi, m, o, timpl in got:
         # pointwise search: a weight that differs from the theorem-backed model weight is a failing input
@@ -73,6 +74,25 @@ def run(rep, rng, tier, replay=None):
                     rep.violation("property", "sample weight %r, but normalisation x U^(-D/2) x V^(-dod) with the exact Symanzik polynomials at the returned Feynman parameters = %r "
                                   "(V = sum x(m^2+p^2) - u^T L^-1 u in rationals)" % (b2f(fi["jacobian"]), float(ex)), case=c, failing_input=True,
                                   what="weight is not the Feynman integrand over the proposal density")
+        # the tropical measure the sectors are drawn from: u_trop = v_trop = 1 is returned, so the TRUE tropical polynomials (largest
+        # monomials of U and F, brute force) at the returned parameters must satisfy U_tr^(D/2) V_tr^dod = 1
+        xf2 = SC.floats(fi["x"])
+        ext_ = set(c["externals"])
+        allv_ = {v for pr in nn["pairs"] for v in pr}
+        if (len(xf2) <= 7 and all(math.isfinite(t) and t > 0 for t in xf2) and ext_ <= allv_
+                and (len(ext_) >= 2 or (len(ext_) == 0 and any(e[2] for e in c["edges"])))):
+            xq = [Fr(t) for t in xf2]
+            trees = G.spanning_trees(nn["pairs"])
+            Ut = max((math.prod([xq[e] for e in range(len(xq)) if e not in T], start=Fr(1)) for T in trees), default=None)
+            Fm = c07.f_monomial_max(c, xq, trees)
+            if Ut is not None and Fm is not None:
+                D_, dod_ = c["D"], b2f(timpl["dod"])
+                val = float(Ut) ** (D_ / 2.0) * float(Fm / Ut) ** dod_
+                n_trop += 1
+                if math.isfinite(val) and not rel_close(val, 1.0, 1e-8 * (2 + D_ + abs(dod_))):
+                    rep.violation("property", "u_trop = v_trop = 1 are returned, but the largest monomials of U and F at the returned Feynman parameters give "
+                                  "U_tr^(D/2) V_tr^dod = %r: the weight is not (U_tr/U)^(D/2) (V_tr/V)^dod x normalisation" % val, case=c, failing_input=True,
+                                  what="tropical normalisation of the returned parameters fails")
         # the Gaussian part of the proposal density: at the returned loop momenta the exponent sum_e x_e(|q_e|^2+m_e^2) must equal
         # v (1 + |q|^2/(2 lambda))  (T1; exact rationals on the implementation's outputs) -- otherwise g(k) is averaged against another density
         if "shift" in fi and fi.get("loop_momenta") is not None:
@@ -113,6 +133,7 @@ def run(rep, rng, tier, replay=None):
     rep.cov["aggregate"] = agg
     rep.cov["weights_checked_against_exact_symanzik_polynomials"] = n_exact
     rep.cov["loop_momenta_checked_against_exact_energy_identity"] = n_energy
+    rep.cov["tropical_normalisation_checked_by_brute_force"] = n_trop
     rep.cov["rule"] = ("pointwise: accepted connected graphs (all families, masses, shifts, 1..4 loops, D=1..6, random cycle bases); weight, loop momenta and every intermediate of the "
                        "implementation vs the Coq model of the whole pipeline (1e-9); the sampler's J table and normalisation constant vs exact rationals / 50 digits; the weight vs normalisation x U^(-D/2) V^(-dod) with U, V exact rationals at the returned parameters "
                        "(tolerance 1e-10 x exact kappa x cancellation; beyond 1e7 skipped); aggregate: massive tadpoles (4 parameter sets), equal-mass bubbles at zero momentum, products "
